@@ -161,7 +161,7 @@ fn name_clash_cases() -> Vec<Case> {
 }
 
 pub fn cases(tier: Tier) -> Vec<Case> {
-    let mut out: Vec<Case> = queries(tier).into_iter().map(|g| Case { sql: g.sql, kind: "fragment", tables: g.tables }).collect();
+    let mut out: Vec<Case> = crate::sqlgen::queries_plus_depth(tier, tier.pick(1, 2)).into_iter().map(|g| Case { sql: g.sql, kind: "fragment", tables: g.tables }).collect();
     out.extend(name_clash_cases());
     out.extend(probes());
     out
@@ -521,12 +521,20 @@ pub fn run(ctx: &Ctx) -> Report {
     r
 }
 
+/// Signature of a panic: the per-query one (`panic stage=.. <site> :: <sql>`) when that is a known finding; else the
+/// root-cause class `panic stage=.. <site> @world=<schema variant>` when that is one (a known panic site reached by
+/// another query under the same schema variant and pipeline stage); else the per-query one, a new violation.
 fn judge(case: &Case, world: &str, log: &[(String, String)], r: &mut Report) {
+    thread_local! {
+        static KNOWN: std::collections::BTreeSet<String> = crate::features::open_known("C18");
+    }
     for (stage, outcome) in log {
         if let Some(site) = outcome.strip_prefix("panic ") {
             let st = stage.split('[').next().unwrap_or(stage);
+            let kind = format!("panic stage={st} {site}");
+            let sig = KNOWN.with(|k| crate::features::resolve(&kind, &case.sql, &[format!("world={world}")], k));
             r.violation(
-                format!("panic stage={st} {site} :: {}", case.sql),
+                sig,
                 &case.sql,
                 json!({"query": case.sql, "kind": case.kind, "world": world, "stage": stage, "panic": site, "stages": log.iter().map(|(s, o)| format!("{s}:{}", o.split(' ').next().unwrap_or(o))).collect::<Vec<_>>()}),
             );
